@@ -604,4 +604,14 @@ theorem rejTail_get_reason (cfg : Cfg) (m : InMsg) (reason : Nat) (refTag : Opti
   cases getInt m 34 <;> cases refTag <;> by_cases h1 : cfg.bs ≥ 2 <;> cases business <;>
     by_cases h3 : (reason > 11 ∧ cfg.bs = 2) <;> simp [h1, h3, Fields.get?] <;> simp_all
 
+
+theorem plainAdmin_logout : PlainAdmin (mkOut "5" []) := ⟨by decide, by decide⟩
+
+theorem plainAdmin_reject (cfg : Cfg) (m : InMsg) (r : Nat) (t : Option Nat) : PlainAdmin (rejectMsg cfg m r t false) := by
+  unfold PlainAdmin
+  rw [rejectMsg_kind]
+  simp
+  decide
+
+
 end Qfx.Sess
